@@ -385,7 +385,7 @@ class Engine:
         # distinct Ref parameters denote distinct objects unless the contract says otherwise
         for i in range(len(refs)):
             for j in range(i + 1, len(refs)):
-                if refs[i].ty == refs[j].ty:
+                if refs[i].ty == refs[j].ty and not ct.ghost.get("alias_ok"):
                     ctx.assume(refs[i].t != refs[j].t)
                     self.note_assumption("distinct object parameters of one function are not aliased")
         return env
